@@ -4,7 +4,7 @@
    and unicode.Is(Zs) as arbitrary predicates on runes; s ranges over lexer states whose cursor is
    inside its input (js_wf), in particular every state reachable from js_init d. *)
 From Verif Require Import Common.Base Common.Lx Gen.Tables JsLex.Model JsLex.Lemmas JsLex.Next JsLex.Proofs JsLex.Canon
-  JsLex.Comment JsLex.Regexp.
+  JsLex.Comment JsLex.Regexp JsLex.Relex JsLex.RelexNext.
 
 (* C01: Next and RegExp never panic (no read outside data ++ [0], templateLevels never sliced empty),
    no loop runs out of fuel, and the cursor stays inside [0, len] — also on the error path. *)
@@ -98,6 +98,25 @@ Theorem op_canonical_longest_match :
   forall l n ty, op l = Ok (n, ty) -> ty <> ErrorToken -> token_bytes ty = Some (firstz n l).
 Proof. exact op_canonical_op. Qed.
 Print Assumptions op_canonical_longest_match.
+
+(* C02 re-lexing, for every token kind except the template continuations: if Next returns (ty, b) with
+   ty not ErrorToken / TemplateMiddle / TemplateEnd — from ANY state inside any input (any
+   prevLineTerminator, brace level, open templates) — then a fresh lexer on the text b alone returns
+   exactly (ty, b) and then the end-of-input report.  no_trunc b: no multi-byte sequence of b is cut
+   off by the end of b; every valid UTF-8 text satisfies it (relex_valid_utf8). *)
+Theorem jslex_relex :
+  forall (ids idc zs : Z -> bool) s ty b s',
+    js_wf s -> lstart (jcur s) = lpos (jcur s) ->
+    next ids idc zs s = Ok ((ty, Some b), s') ->
+    ty <> ErrorToken -> ty <> TemplateMiddleToken -> ty <> TemplateEndToken -> no_trunc b = true ->
+    exists s2 s3, next ids idc zs (js_init b) = Ok ((ty, Some b), s2) /\
+      next ids idc zs s2 = Ok ((ErrorToken, None), s3) /\ js_err s3 = 1.
+Proof. exact jslex_relex_proof. Qed.
+Print Assumptions jslex_relex.
+
+Theorem relex_valid_utf8 : forall b, valid_utf8 b -> no_trunc b = true.
+Proof. exact valid_utf8_no_trunc. Qed.
+Print Assumptions relex_valid_utf8.
 
 (* C02 re-lexing, template continuations: refuted.  For both TemplateMiddle and TemplateEnd there is
    an input whose second token, lexed on its own by a fresh lexer, is not that token (known finding
